@@ -79,7 +79,22 @@ func poolMap(ammo, gun, result map[string]any, instances, ms int) map[string]any
 		"startup": map[string]any{"type": "once", "times": instances}}
 }
 
+// httpKind: kinds whose shared state is only written while a pool starts up (the clients of a
+// shared client pool settling their protocol on the first answers) are run as a row of short
+// fresh pools instead of one long one, so that the start-up moment is met many times.
 func httpKind(res *vkit.Result, k Kind) {
+	if strings.HasPrefix(k.Name, "http2/") && strings.Contains(k.Name, "shared-client") {
+		short := k
+		short.Ms = max(k.Ms/12, 60)
+		for i := 0; i < 12; i++ {
+			httpKindOnce(res, short)
+		}
+		return
+	}
+	httpKindOnce(res, k)
+}
+
+func httpKindOnce(res *vkit.Result, k Kind) {
 	// dnscache: the target is named, not numbered, and is still down when the config is decoded (the
 	// gun's pre-resolve fails, so the process-wide DNS cache of the dialers stays in use); it
 	// comes up before the shooting starts and all instances make their first connect at once
@@ -168,6 +183,9 @@ func httpKind(res *vkit.Result, k Kind) {
 	gun := map[string]any{"type": gunType, "target": tgt.Addr}
 	if strings.Contains(k.Name, "shared-client") {
 		gun["shared-client"] = map[string]any{"enabled": true, "client-number": 3}
+		if gunType == "http2" {
+			gun["shared-client"] = map[string]any{"enabled": true, "client-number": 1}
+		}
 	}
 	result := map[string]any{"type": "discard"}
 	phoutPath := ""
